@@ -56,10 +56,11 @@ type Observed struct {
 	// FeedSlow: a subscriber that takes a value every now and then; FeedIdle: one that only looks
 	// at its slot when everything is over
 	DBFaultFired bool    `json:"db_fault_fired,omitempty"`
+	DBFaultMark  int     `json:"db_fault_mark,omitempty"`
 	DBFaultHead  *HeadJ  `json:"db_fault_head,omitempty"`
-	FeedSent []HeadJ `json:"feed_sent"` // every value Blockchain.SetL1Head sent on the feed = the notifications (+ a failed write's)
-	FeedSlow []HeadJ `json:"feed_slow"`
-	FeedIdle []HeadJ `json:"feed_idle"`
+	FeedSent     []HeadJ `json:"feed_sent"` // every value Blockchain.SetL1Head sent on the feed = the notifications (+ a failed write's)
+	FeedSlow     []HeadJ `json:"feed_slow"`
+	FeedIdle     []HeadJ `json:"feed_idle"`
 	// geth family: what the fake node pushed on the subscription / answered to eth_getLogs
 	Emitted      []Log    `json:"emitted,omitempty"`
 	FilterGot    [][]Log  `json:"filter_got,omitempty"`
@@ -76,6 +77,7 @@ type faultyKV struct {
 	reads, wrs int
 	fired      bool
 	wrote      *HeadJ // the head whose write failed (it had been sent on the feed before)
+	onFire     func(wrote *HeadJ)
 }
 
 var errDB = errors.New("scripted database failure")
@@ -90,6 +92,9 @@ func (k *faultyKV) Get(key []byte, cb func([]byte) error) error {
 		}
 		k.mu.Unlock()
 		if fail {
+			if k.onFire != nil {
+				k.onFire(nil)
+			}
 			return errDB
 		}
 	}
@@ -108,8 +113,12 @@ func (k *faultyKV) Put(key, value []byte) error {
 				k.wrote = headJ(&h)
 			}
 		}
+		w := k.wrote
 		k.mu.Unlock()
 		if fail {
+			if k.onFire != nil {
+				k.onFire(w)
+			}
 			return errDB
 		}
 	}
@@ -137,12 +146,14 @@ type provider struct {
 	chain *blockchain.Blockchain
 	raw   db.KeyValueStore
 
-	marks  []Mark
-	events []Log
-	notes  []HeadJ
-	ch     chan<- *l1.StateUpdate
-	sub    *scriptedSub
-	sent   int
+	marks       []Mark
+	events      []Log
+	notes       []HeadJ
+	feedSent    []HeadJ // every value sent on the feed, in order (notifications + a failed write's)
+	faultAtMark int     // index of the poll mark during which the database failed (-1: none)
+	ch          chan<- *l1.StateUpdate
+	sub         *scriptedSub
+	sent        int
 
 	cur          uint64 // current finalised height
 	chainIDFails int
@@ -562,7 +573,7 @@ func runCase(c *Case) *Observed {
 			StateRoot:   new(felt.Felt).SetUint64(c.Stored.Root),
 		})
 	}
-	p := &provider{c: c, chain: chain, raw: raw, cur: c.Fin2, chainIDFails: c.ChainIDFails,
+	p := &provider{c: c, chain: chain, raw: raw, faultAtMark: -1, cur: c.Fin2, chainIDFails: c.ChainIDFails,
 		fin2Fails: c.Fin2Fails, watchFails: c.WatchFails}
 	p.cond = sync.NewCond(&p.mu)
 	if c.Geth {
@@ -586,8 +597,17 @@ func runCase(c *Case) *Observed {
 		// called from the client goroutine, never from inside a provider call
 		p.mu.Lock()
 		p.notes = append(p.notes, *headJ(h))
+		p.feedSent = append(p.feedSent, *headJ(h))
 		p.mu.Unlock()
 	}}
+	kv.onFire = func(wrote *HeadJ) { // client goroutine, inside setL1Head, between two provider calls
+		p.mu.Lock()
+		p.faultAtMark = len(p.marks) - 1
+		if wrote != nil {
+			p.feedSent = append(p.feedSent, *wrote)
+		}
+		p.mu.Unlock()
+	}
 	poll := time.Duration(c.PollMicros) * time.Microsecond
 	if poll <= 0 {
 		poll = 200 * time.Microsecond
@@ -710,13 +730,11 @@ func runCase(c *Case) *Observed {
 	obs.Marks = append([]Mark(nil), p.marks...)
 	obs.Events = append([]Log(nil), p.events...)
 	obs.Notes = append([]HeadJ(nil), p.notes...)
-	obs.FeedSent = append([]HeadJ(nil), p.notes...)
+	obs.FeedSent = append([]HeadJ(nil), p.feedSent...)
+	obs.DBFaultMark = p.faultAtMark
 	kv.mu.Lock()
 	obs.DBFaultFired = kv.fired
-	if kv.wrote != nil {
-		obs.DBFaultHead = kv.wrote
-		obs.FeedSent = append(obs.FeedSent, *kv.wrote)
-	}
+	obs.DBFaultHead = kv.wrote
 	kv.mu.Unlock()
 	obs.FilterGot = p.filterGot
 	obs.GethProblems = p.problems
